@@ -1,3 +1,4 @@
 import BufrProofs.Bits
 import BufrProofs.Expand
 import BufrProofs.Ops
+import BufrProofs.Ieee
